@@ -1000,6 +1000,8 @@ fn loop_constructs(text: &str) -> usize {
     for kw in ["reduce(", "any(", "all(", "none(", "single("] {
         n += t.matches(kw).count();
     }
+    // pattern comprehensions `[(a)-->(b) | ...]` iterate matches inside the evaluator as well
+    n += t.matches("[(").count();
     // `[x IN ...`
     let b = t.as_bytes();
     let mut i = 0;
